@@ -752,6 +752,13 @@ func collectAtomsWith(fset *token.FileSet, n ast.Node, d *duality, ctx []string,
 			}
 			return
 		}
+		if split && len(x.Rhs) == 1 && len(x.Lhs) > 1 {
+			// a, b, c = f(): one atom per target (the key target and the value target of one call are twins)
+			for i := range x.Lhs {
+				emit(render(fset, x.Lhs[i], d) + " = " + render(fset, x.Rhs[0], d))
+			}
+			return
+		}
 		emit(render(fset, x, d))
 	default:
 		var tmp []string
